@@ -386,3 +386,107 @@ func HarnessC15_ReconcileOther() {
 	vfAssert(len(post.Owners) == no, "C15 owners untouched")
 	vfCover("c15-other-done")
 }
+
+func init() { vfRegisterBubble("HarnessC15_ReplicationSets", HarnessC15_ReplicationSets) }
+
+type vfPRReader struct{ pr *PartitionRing }
+
+func (r vfPRReader) PartitionRing() *PartitionRing { return r.pr }
+
+// HarnessC15_ReplicationSets: per-partition replication sets consist of exactly
+// the partition's healthy registered owners and require at least one.
+func HarnessC15_ReplicationSets() {
+	np := 1 + vfChoice("nparts", vfParam("parts", 2))
+	no := vfParam("owners", 3)
+	now := vfEpoch + 5000
+	vfSetNow(now)
+	// instance ring: owners o0..o(no-1) may or may not be registered, with symbolic state and heartbeat
+	d := NewDesc()
+	registered := map[string]bool{}
+	healthy := map[string]bool{}
+	opIdx := vfChoice("op", 4)
+	for o := 0; o < no; o++ {
+		id := vfOwnerIDs[o]
+		if vfChoice("registered", 2) == 0 {
+			continue
+		}
+		st := InstanceState(vfI32("st_" + id))
+		vfAssume(vfAnd(st >= ACTIVE, st <= JOINING))
+		ts := vfI64("ts_" + id)
+		vfAssume(vfAnd(ts >= now-1000, ts <= now))
+		zone := vfZones[vfChoice("zone", 2)]
+		d.Ingesters[id] = InstanceDesc{Id: id, Addr: id, Zone: zone, State: st, Timestamp: ts, RegisteredTimestamp: 7, Tokens: []uint32{uint32(100 * (o + 1))}}
+		registered[id] = true
+		healthy[id] = vfAnd(specHealthyStateC15(opIdx, st), now-ts <= 60)
+	}
+	ir := vfMkRing(d, 1, false, time.Minute)
+	// partition ring: each owner owns one partition (symbolic which)
+	desc := NewPartitionRingDesc()
+	for p := 0; p < np; p++ {
+		desc.Partitions[int32(p)] = PartitionDesc{Id: int32(p), Tokens: []uint32{uint32(10 + p)}, State: PartitionActive, StateTimestamp: vfEpoch}
+	}
+	ownerOf := map[string]int32{}
+	for o := 0; o < no; o++ {
+		p := int32(vfChoice("owns", np))
+		ownerOf[vfOwnerIDs[o]] = p
+		desc.Owners[vfOwnerIDs[o]] = OwnerDesc{OwnedPartition: p, State: OwnerActive, UpdatedTimestamp: vfEpoch}
+	}
+	pr, err := NewPartitionRing(*desc)
+	vfAssert(err == nil, "C15 partition ring builds")
+	pir := NewPartitionInstanceRing(vfPRReader{pr}, ir, time.Minute)
+	sets, err := pir.GetReplicationSetsForOperation([]Operation{Write, WriteNoExtend, Read, Reporting}[opIdx])
+	// reference: healthy registered owners per partition
+	anyEmpty := false
+	for p := int32(0); int(p) < np; p++ {
+		n := 0
+		for o := 0; o < no; o++ {
+			id := vfOwnerIDs[o]
+			if ownerOf[id] == p && registered[id] && healthy[id] {
+				n++
+			}
+		}
+		if n == 0 {
+			anyEmpty = true
+		}
+	}
+	vfObserve("err", err != nil)
+	if anyEmpty {
+		vfAssert(err != nil, "C15 a partition without a healthy registered owner makes the lookup fail")
+		vfCover("c15-rs-fail")
+		return
+	}
+	vfAssert(err == nil && len(sets) == np, "C15 one replication set per partition when every partition has a healthy owner")
+	if err != nil {
+		return
+	}
+	for _, rs := range sets {
+		// which partition is it? all its instances own the same partition
+		vfAssert(len(rs.Instances) > 0, "C15 a replication set has at least one instance")
+		p := ownerOf[rs.Instances[0].Id]
+		zones := map[string]bool{}
+		for i := range rs.Instances {
+			id := rs.Instances[i].Id
+			vfAssert(ownerOf[id] == p && registered[id], "C15 a replication set holds only registered owners of its partition")
+			vfAssert(healthy[id], "C15 a replication set holds only healthy owners")
+			zones[rs.Instances[i].Zone] = true
+		}
+		for o := 0; o < no; o++ {
+			id := vfOwnerIDs[o]
+			if ownerOf[id] == p && registered[id] && healthy[id] {
+				vfAssert(vfHasID(rs, id), "C15 every healthy registered owner of the partition is in its replication set")
+			}
+		}
+		vfAssert(rs.MaxUnavailableZones == len(zones)-1, "C15 a partition read needs one zone: MaxUnavailableZones = zones - 1")
+	}
+	vfCover("c15-rs-ok")
+}
+
+func specHealthyStateC15(opIdx int, s InstanceState) bool {
+	switch opIdx {
+	case 0, 1:
+		return s == ACTIVE
+	case 2:
+		return vfOr(s == ACTIVE, vfOr(s == PENDING, s == LEAVING))
+	}
+	return true
+}
